@@ -42,7 +42,9 @@ def synthesize(name: str, bases: tuple[type, ...], **kwargs: Any) -> type:
 
     found = __registry.get(name)
     if isinstance(found, type):
-        return found
+        # NOTE: a class of the same name synthesized for another grammar may have other bases
+        if found.__bases__ == bases:
+            return found
     elif found:
         raise TypeError(f'Found {name!r} in context but its type is {type(found)!r}')
 
